@@ -95,6 +95,32 @@ def uup_zero_flag(cfg):
                for ca, cb in zip(cfg["u"], cfg["uup"]) for a, b in zip(flat(ca), flat(cb)))
 
 
+def replay_clauses(prop, cfg):
+    """clauses evaluated on the configurations that the design-level model enumerated"""
+    def zero_on_boundary():
+        dims = [len(f) - 1 for f in cfg["faces"]]
+        for a, comp in enumerate(cfg["u"]):
+            def walk(n, ix):
+                if isinstance(n, list) and not (len(n) == 2 and all(isinstance(v, int) for v in n)):
+                    return all(walk(v, ix + [k]) for k, v in enumerate(n))
+                return n[0] == 0 or not (ix[a] == 0 or ix[a] == dims[a])
+            if not walk(comp, []):
+                return False
+        return True
+    bc_ok = not cfg.get("bc_singular")
+    table = {
+        "C05": ["C05_Diffusion", "C05_Central", "C05_Upwind"],
+        "C06": ["C06_DiffConst", "C06_CentralConst", "C06_UpwindConst"],
+        "C04": ["C04_DiffInterior", "C04_ConvInterior", "C04_UpInterior"],
+        "C03": ["C03_Robin", "C03_Periodic", "C03_InteriorKept", "C03_RowsSatisfied", "C03_RowsEncodeRobin",
+                "C03_RowsOnGhostOnly"] if bc_ok else [],
+        "C01": (["C01_ClosedDiffusion", "C01_ClosedCentral", "C01_ClosedUpwind", "C01_ClosedDivergence"]
+                if zero_on_boundary() and cfg["cls"] != "SphericalGrid3D" else []),
+        "C07": [], "C17": [],
+    }
+    return table.get(prop, [])
+
+
 def offsets_str(detail):
     if not detail:
         return ""
@@ -114,16 +140,24 @@ def run_property(prop, tier, seed, *, clauses_for, n_quick, n_thorough, gen_kw=N
         n = pt["n_quick"] if tier == "quick" else pt["n_thorough"]
         configs = list(pt.get("extra_configs", []))
         kws = pt.get("gen_kw") if isinstance(pt.get("gen_kw"), list) else [pt.get("gen_kw") or {}]
-        for j, kw in enumerate(kws):
+        for j, kw in enumerate(kws if n > 0 else []):
             configs += gen_configs(seed * 1000 + j + offset, max(1, n // len(kws)), classes=pt.get("classes"),
                                    generator=pt.get("generator"), **kw)
         eps = make_episodes(configs, pt["clauses_for"], pt.get("extra_conform", ()), observe=pt.get("observe"))
         return eps
     main_part = dict(clauses_for=clauses_for, n_quick=n_quick, n_thorough=n_thorough, gen_kw=gen_kw,
                      extra_conform=extra_conform, classes=classes, generator=generator, observe=observe,
-                     extra_configs=list(des.get("configs", [])) + list(extra_configs))
+                     extra_configs=list(extra_configs))
+    all_parts = [main_part] + list(parts or [])
+    if des.get("configs"):
+        # spec -> code: configurations enumerated by the design-level TLC model, replayed into the builders;
+        # conformance of every output to the reference semantics is recorded (tripwire), the property's
+        # operator-level clauses are evaluated on the observed values
+        all_parts.append(dict(clauses_for=lambda cfg: replay_clauses(prop, cfg), n_quick=0, n_thorough=0,
+                              gen_kw=[], extra_configs=des["configs"], classes=[],
+                              extra_conform=["Mdiff", "Mconv", "Mup", "ghost", "Mbc", "Rbc", "divu"]))
     episodes = []
-    for k, pt in enumerate([main_part] + list(parts or [])):
+    for k, pt in enumerate(all_parts):
         eps = part_episodes(pt, 100 * k)
         for e in eps:
             e["id"] = len(episodes)
@@ -182,3 +216,73 @@ def run_property(prop, tier, seed, *, clauses_for, n_quick, n_thorough, gen_kw=N
     return rep.finish(cov, assumptions=list(assumptions) + [
         "float outputs lifted to rationals (|x-p/q| <= 1e-12 max(1,|x|), q <= 5e5)",
         "SphericalGrid3D runs with the rational surrogate metric s(t)=t(4-t)/4 installed harness-side (DESIGN 3.3 D3)"])
+
+
+DESIGN_INVARIANTS = {
+    "C01": ["DC01", "DC01_Geometric"], "C03": ["DC03"], "C04": ["DC04"], "C05": ["DC05_Diffusion", "DC05_Central", "DC05_Upwind"],
+    "C06": ["DC06"], "C07": ["DC07"], "C17": ["DC17"],
+}
+
+
+def design_ops(prop, replay_clauses, replay_budget=40):
+    """returns a `design` callable for run_property: runs the design-level model FVDesignOps with the
+    invariants of `prop` (TLC, exhaustive over the bounded configuration space) and turns a sample of
+    the configurations TLC enumerated into episodes for the real code (spec -> code)"""
+    from fractions import Fraction as Fr
+    from opsdrive import enc, nested, face_shape, trans_shape, SIDES, _nonsingular
+
+    def run(tier, seed):
+        base = open(tlcrun.SPEC + f"/FVDesignOps_{tier}.cfg").read()
+        lines = [l for l in base.splitlines() if not l.startswith("INVARIANT")]
+        lines = [l.replace("Emit = FALSE", "Emit = TRUE") for l in lines]
+        lines += [f"INVARIANT {inv}" for inv in DESIGN_INVARIANTS[prop]]
+        path = tlcrun.fresh("designops.cfg")
+        open(path, "w").write("\n".join(lines) + "\n")
+        res = tlcrun.run_tlc("FVDesignOps.tla", path, workers=16, timeout=3000, heap="8g")
+        if not res["ok"]:
+            raise tlcrun.MachineryError(f"design-level model FVDesignOps ({prop}) failed:\n" + tlcrun.tlc_error_excerpt(res["out"]))
+        emitted = res["printed"]
+        rng = random.Random(seed)
+        picks = rng.sample(emitted, min(replay_budget if tier == "quick" else 10 * replay_budget, len(emitted)))
+        configs = []
+        for em in picks:
+            cls = em["cls"]
+            dims = [len(f) - 1 for f in em["faces"]]
+            d = len(dims)
+            full = [n + 2 for n in dims]
+            coef = {(c[0], tuple(c[1])): c[2] for c in em["coef"]}
+
+            def comp(a, absolute):
+                def fn(ix):
+                    q = coef.get((a + 1, tuple(ix)), [0, 1])
+                    return [abs(q[0]), q[1]] if absolute else q
+                return nested(face_shape(dims, a), fn)
+            cfg = {"cls": cls, "aunit": em["aunit"], "faces": em["faces"], "label": cls,
+                   "D": [comp(a, True) for a in range(d)], "u": [comp(a, False) for a in range(d)],
+                   "beta": nested(dims, lambda ix: enc(1)), "gamma": nested(dims, lambda ix: enc(2)),
+                   "alpha": nested(dims, lambda ix: enc(1)), "dt": enc(1), "lam": enc(3),
+                   "limiters": ["SUPERBEE"], "const": enc(1), "lin_alpha": enc(0), "lin_beta": [enc(1)] * d,
+                   "closed": False, "from_design_model": True}
+            cfg["uup"] = cfg["u"]
+            cfg["phi"] = nested(full, lambda ix: enc(1 + (sum((k + 2) * i for k, i in enumerate(ix)) * 7) % 5))
+            kind = em["bck"]
+            bc = {}
+            ok = True
+            for a in range(d):
+                lab = drive.AXIS_LABELS[cls][a]
+                per = kind == "periodic" and lab != "r" and not (cls == "SphericalGrid3D" and lab == "theta")
+                for s, high in ((SIDES[a][0], False), (SIDES[a][1], True)):
+                    shp = trans_shape(dims, a)
+                    av, bv = {"dirichlet": (0, 1), "robin": (2, -3)}.get(kind, (1, 0))
+                    A = nested(shp, lambda ix: Fr(av)); B = nested(shp, lambda ix: Fr(bv))
+                    if not _nonsingular(cfg, a, high, A, B, dims):
+                        ok = False
+                    bc[s] = {"a": nested(shp, lambda ix: enc(av)), "b": nested(shp, lambda ix: enc(bv)),
+                             "c": nested(shp, lambda ix: enc(2 if high else -1)), "periodic": per, "kind": kind}
+            cfg["bc"] = bc
+            cfg["bc_singular"] = not ok
+            configs.append(cfg)
+        return {"states": res["distinct"], "transitions": res["states"], "configs": configs,
+                "module": "FVDesignOps", "invariants": DESIGN_INVARIANTS[prop], "configurations_enumerated": len(emitted),
+                "configurations_replayed": len(configs)}
+    return run
